@@ -30,7 +30,9 @@ MANIFEST = {
              "shift, clip, overlay/underlay, _binop over the encompassing span, apply, trim), for all series, dates, variants and values, "
              "no bound: the model refines the map abs : (serial, variant) -> value -- a write changes exactly the addressed cells (last "
              "write wins), a read returns abs, shift moves abs by exactly k, NaN-strict binary operators act pointwise on abs after "
-             "alignment, overlay/underlay/clip/element-wise apply are one equation on abs each, trim leaves abs unchanged and establishes "
+             "alignment (equal numbers of variants), clip/slices/element-wise apply are one equation on abs each, for overlay the frame (nothing outside "
+             "the other span changes), well-formedness and trimming are proved while its value equation (and underlay/hstack, 1-vs-n variant "
+             "broadcasting in operators) rests on the correspondence run; trim leaves abs unchanged and establishes "
              "'no all-missing leading/trailing row, all-missing = empty series without start'; well-formedness is preserved by every "
              "operation and lifted to arbitrary op sequences over a pool by induction (reachable_inv). The model is tied to the code on "
              "every run by an op-sequence differential check against irispie (state of the whole pool compared after every op, exact "
